@@ -119,7 +119,7 @@ def run(prop, tier, seed, scratch, replay, t0):
     tie = None
     if getattr(mod, "TRANSLATION_TIE", False) and ok and not replay:
         import gentie
-        tie = gentie.check()
+        tie = gentie.check(mod.TRANSLATION_TIE)
         if tie["status"] == "broken":
             proof_problems.append("translation tie broken: %s\n%s" % (tie["reason"], (tie.get("lean_output") or "")[-1500:]))
 
@@ -237,8 +237,9 @@ def run(prop, tier, seed, scratch, replay, t0):
                 "axioms accepted: propext, Classical.choice, Quot.sound (no native_decide, no bv_decide, no sorry)",
                 "hand-written model lean/GffModel tied to /repo by the correspondence run below (differential, sampled)",
                 "Python harness: generators, codec, canonicalisation, oracle",
-            ] + (["translator tools/py2lean.py (gffutils/bins.py -> GffGen.bins; Python int = Lean Int, a set of ints = List Int "
-                  "observed through membership)"] if tie else []) + list(getattr(mod, "TRUSTED", [])),
+            ] + (["translator tools/py2lean.py (gffutils/bins.py -> GffGen.bins: Python int = Lean Int, a set of ints = List Int "
+                  "observed through membership; gffutils/merge_criteria.py -> data of GffModel.CritExpr, whose interpreter "
+                  "evalB carries Python's semantics of None, chained <=, and/or)"] if tie else []) + list(getattr(mod, "TRUSTED", [])),
             "theorems": {n: ax for n, ax in sorted(thms.items())},
             "obligation_kinds": "one per audited theorem + clean `lake build` + no forbidden token",
             "proof_problems": proof_problems,
